@@ -9,7 +9,8 @@ from usim import Channel, StreamClosed, time
 PROPERTY = 'C11'
 LEVEL = 'fault_enumeration'
 RULE = (
-    '1-3 producers and 1-6 consumers (iterating and single-shot `await channel`) subscribing '
+    '1-3 producers and 1-6 consumers (iterating, single-shot `await channel`, and both at once '
+    'in one activity) subscribing '
     'before / between / after puts, consumers slower than producers, consumers that leave after '
     'k messages, optional close (and puts after close); un-injected run plus cancel / '
     'until-interrupt / close injected at activation boundaries of any consumer or producer '
@@ -48,7 +49,8 @@ def make_case(seed, index, tier):
         producers.append({'name': 'p%d' % number, 'ops': ops})
     consumers = []
     for number in range(rng.randint(1, 6)):
-        consumers.append({'name': 'c%d' % number, 'mode': rng.choice(['iter', 'iter', 'single']),
+        consumers.append({'name': 'c%d' % number,
+                          'mode': rng.choice(['iter', 'iter', 'single', 'iter+single']),
                           'count': rng.choice([1, 2, 3, 5, 99]), 'offset': rng.choice(GRID),
                           'work': rng.choice([0, 0, 0.5, 1, 2]),
                           'repeat': rng.randint(1, 3)})
@@ -237,6 +239,20 @@ def build_for(case):
                         if count >= spec['count']:
                             checker.leave(sub, 'break')
                             break
+                        if spec['mode'] == 'iter+single' and count % 2 == 1:
+                            # a second, simultaneous subscription of the *same* activity
+                            inner = checker.subscribe(name, True)
+                            checker.stats['nested_subscriptions'] = \
+                                checker.stats.get('nested_subscriptions', 0) + 1
+                            try:
+                                extra = await channel
+                            except StreamClosed:
+                                checker.leave(inner, 'closed')
+                            except BaseException:
+                                checker.leave(inner, 'struck')
+                                raise
+                            else:
+                                checker.receive(inner, extra)
                         if spec['work']:
                             if len(checker.puts) > checker.subs[sub]['from'] + count:
                                 checker.stats['slow_backlog'] += 1
